@@ -3,7 +3,7 @@
 // to succeed / partially fail / fail.  Request bodies are generated around the size limit
 // (limit-1, limit, limit+1, measured after gzip decoding), with 0-3 malformed lines at random
 // positions, plain and gzip, delivered by a scripted io.ReadCloser (any chunking; EOF together
-// with the last bytes or on the next call), plus a few requests through a real httptest.Server
+// with the last bytes or on a later call, possibly after (0, nil) answers), plus a few requests through a real httptest.Server
 // (Content-Length, chunked, chunked with a late terminating chunk).
 // Observables: status code, error code, line texts named in the error, dropped=<n> of the
 // message, and the points (series key, time) of every PointsWriter.WritePoints call.
@@ -40,8 +40,6 @@ import (
 	"verifh/vh"
 )
 
-const sigLimitExact = "limit-exact-body-rejected"
-
 // hung is set when the handler did not answer: a definitive failure; generation stops.
 var hung bool
 
@@ -64,6 +62,7 @@ type jcase struct {
 	Body        string `json:"body"` // decoded body
 	Eager       bool   `json:"eager"`
 	Chunks      []int  `json:"chunks"`
+	Stalls      int    `json:"stalls"` // (0, nil) answers of the scripted reader before its EOF (plain direct only)
 	Writer      int    `json:"writer"` // 0 ok, 1 partial, 2 other error
 	Dropped     int    `json:"dropped"`
 	// observed
@@ -90,15 +89,20 @@ func (r *recorder) WritePoints(ctx context.Context, o, b platform.ID, pts []mode
 }
 
 // scripted is the request body: delivers at most chunks[i] bytes on the i-th call; EOF with the
-// last bytes (eager) or on the next call.
+// last bytes (eager, only without stalls) or on a later call, after `stalls` (0, nil) answers.
 type scripted struct {
 	data   []byte
 	chunks []int
 	eager  bool
+	stalls int
 }
 
 func (s *scripted) Read(p []byte) (int, error) {
 	if len(s.data) == 0 {
+		if s.stalls > 0 {
+			s.stalls--
+			return 0, nil
+		}
 		return 0, io.EOF
 	}
 	if len(p) == 0 {
@@ -119,7 +123,7 @@ func (s *scripted) Read(p []byte) (int, error) {
 	}
 	copy(p, s.data[:k])
 	s.data = s.data[k:]
-	if len(s.data) == 0 && s.eager {
+	if len(s.data) == 0 && s.eager && s.stalls == 0 {
 		return k, io.EOF
 	}
 	return k, nil
@@ -232,7 +236,7 @@ func exec(c *jcase) (status int, respBody []byte, calls [][]jpoint, fail string)
 	h := handler(c, pw)
 	data := wire(c)
 	if c.Transport == "direct" {
-		r := httptest.NewRequest("POST", "http://localhost:8086/api/v2/write?"+query(c), &scripted{data: data, chunks: append([]int{}, c.Chunks...), eager: c.Eager})
+		r := httptest.NewRequest("POST", "http://localhost:8086/api/v2/write?"+query(c), &scripted{data: data, chunks: append([]int{}, c.Chunks...), eager: c.Eager, stalls: c.Stalls})
 		if c.Encoding != "" {
 			r.Header.Set("Content-Encoding", c.Encoding)
 		}
@@ -392,18 +396,14 @@ func run(w *vh.W, c *jcase) {
 		callTerms = append(callTerms, vh.List(pts))
 	}
 	t := fmt.Sprintf("{| c_auth := %s; c_prec_valid := %s; c_bucket_param := %s; c_gzip_header := %s; c_org_found := %s; c_bucket_found := %s; c_perm := %s; "+
-		"c_prec := %s; c_limit := %s; c_body := %s; c_end := %s; c_eager := %s; c_script := %s; c_writer := %s; c_wdropped := %s; "+
+		"c_prec := %s; c_limit := %s; c_body := %s; c_end := %s; c_eager := %s; c_stall := %s; c_script := %s; c_writer := %s; c_wdropped := %s; "+
 		"o_status := %s; o_code := %s; o_rejected := %s; o_dropped := %s; o_calls := %s |}",
 		vh.Bool(c.Auth), vh.Bool(precValid), vh.Bool(c.BucketParam), vh.Bool(c.GzipFault != "header"), vh.Bool(c.OrgFound), vh.Bool(c.BucketFound), vh.Bool(c.Perm),
-		vh.N(precCode[c.Precision]), vh.Z(c.Limit), segs([]byte(c.Body)), vh.N(endc), eager, vh.List(script), vh.N(uint64(c.Writer)), vh.N(uint64(c.Dropped)),
+		vh.N(precCode[c.Precision]), vh.Z(c.Limit), segs([]byte(c.Body)), vh.N(endc), eager, vh.N(uint64(c.Stalls)), vh.List(script), vh.N(uint64(c.Writer)), vh.N(uint64(c.Dropped)),
 		vh.N(uint64(status)), vh.N(code), vh.List(rej), vh.OptN(c.DroppedObs), vh.List(callTerms))
 	preOK := c.Auth && precValid && c.BucketParam && c.GzipFault != "header" && c.OrgFound && c.BucketFound && c.Perm
 	n := int64(len(c.Body))
-	sig := ""
-	// shape of the known finding, decided from the inputs only: a well-delivered body of EXACTLY the limit
-	if preOK && c.GzipFault == "" && c.Limit > 0 && n == c.Limit {
-		sig = sigLimitExact
-	}
+	sig := "" // the former finding limit-exact-body-rejected is fixed (commit ea653b404e): nothing is tolerated
 	delta := "nolimit"
 	if c.Limit > 0 {
 		switch d := n - c.Limit; {
@@ -420,12 +420,14 @@ func run(w *vh.W, c *jcase) {
 		}
 	}
 	nontrivial := preOK && (delta == "limit-1" || delta == "limit" || delta == "limit+1" || len(c.Rejected) > 0 || c.Writer != 0)
-	w.Add(t, c, nontrivial, sig)
+	cc := *c // the caller may reuse its variable
+	w.Add(t, &cc, nontrivial, sig)
 	w.Count("status", fmt.Sprint(status))
 	w.Count("size_vs_limit", delta)
 	w.Count("transport", c.Transport+"/"+c.Encoding)
 	w.Count("rejected_lines", fmt.Sprint(len(c.Rejected)))
 	w.Count("writer", fmt.Sprint(c.Writer))
+	w.Count("stalls", fmt.Sprint(c.Stalls))
 	w.Count("kind", c.Kind)
 }
 
@@ -524,6 +526,17 @@ func main() {
 			c.Body, c.Encoding, c.GzipFault = three, "gzip", f
 			run(w, &c)
 		}
+		for _, st := range []int{1, 99, 100} { // exact limit, late EOF after stalls: 100 -> io.ErrNoProgress at the probe
+			c = base("corpus-limit-stalls")
+			c.Body, c.Limit, c.Stalls = three, 42, st
+			run(w, &c)
+			c = base("corpus-under-limit-stalls")
+			c.Body, c.Limit, c.Stalls = three, 43, st
+			run(w, &c)
+		}
+		c = base("corpus-limit-gzip-checksum") // the trailer error surfaces at the probe: 400, not 413
+		c.Body, c.Limit, c.Encoding, c.GzipFault = three, 42, "gzip", "checksum"
+		run(w, &c)
 		c = base("corpus-malformed-over-limit")
 		c.Body, c.Limit = "bad\n"+three, 20
 		run(w, &c)
@@ -562,6 +575,9 @@ func main() {
 			}
 		}
 		c.Eager = r.IntN(2) == 0
+		if c.Encoding == "" && r.IntN(6) == 0 {
+			c.Stalls = []int{1, 3, 99, 100, 101, 150}[r.IntN(6)]
+		}
 		for k := r.IntN(5); k > 0; k-- {
 			c.Chunks = append(c.Chunks, 1+r.IntN(int(n)+2))
 		}
@@ -596,6 +612,7 @@ func main() {
 			}
 		}
 		if r.IntN(40) == 0 && c.Encoding == "" {
+			c.Stalls = 0
 			c.Transport = []string{"server-cl", "server-chunked"}[r.IntN(2)]
 			c.Chunks = nil
 		}
